@@ -379,7 +379,23 @@ func (e *nodeEngine) statusAt(obs *nd, id string) string {
 	return string(n.Status)
 }
 
+// seen prints what every survivor thinks of the lost node: `active` (still routed to) or
+// `down` (left / unreachable / forgotten: never a LookupEndpoint candidate).  Which of the three
+// it is depends on whether the node's own failure detector let it notify that peer - on a
+// loaded box detectors flap - so it is asserted by the oracle, not compared with the model.
 func (e *nodeEngine) seen(lost *nd) string {
+	var xs []string
+	for _, s := range e.survivors() {
+		st := e.statusAt(s, lost.id)
+		if st != string(cluster.NodeStatusActive) {
+			st = "down"
+		}
+		xs = append(xs, s.id+":"+st)
+	}
+	return "[" + strings.Join(xs, ",") + "]"
+}
+
+func (e *nodeEngine) seenExact(lost *nd) string {
 	var xs []string
 	for _, s := range e.survivors() {
 		xs = append(xs, s.id+":"+e.statusAt(s, lost.id))
@@ -397,14 +413,18 @@ func (e *nodeEngine) recover(lost *nd, wantStatus string, o *Out) string {
 	}
 	okStatus := e.waitFor(settleBound, func() bool {
 		for _, s := range e.survivors() {
-			if st := e.statusAt(s, lost.id); st != wantStatus && st != "absent" {
+			// routing stops for any status but `active`
+			if e.statusAt(s, lost.id) == string(cluster.NodeStatusActive) {
 				return false
 			}
 		}
 		return true
 	})
 	if !okStatus {
-		o.Fail("C18", "still-routing", "lost="+lost.id+" seen="+e.seen(lost))
+		o.Fail("C18", "still-routing", "lost="+lost.id+" seen="+e.seenExact(lost))
+	}
+	for _, s := range e.survivors() {
+		o.Count("status-of-lost-node:" + e.statusAt(s, lost.id) + "(expected " + wantStatus + ")")
 	}
 	// no survivor's routing table offers the lost node for any endpoint
 	for _, s := range e.survivors() {
@@ -572,6 +592,18 @@ func (e *nodeEngine) step(ws []string, o *Out) string {
 				time.Sleep(20 * time.Microsecond)
 			}
 		}()
+		// precondition of the scenario (the model's views are settled): wait until the failure
+		// detectors agree that everybody alive is reachable (on a loaded box they flap)
+		e.waitFor(settleBound, func() bool {
+			for _, a := range e.nodes {
+				for _, b := range e.nodes {
+					if a.alive && b.alive && a != b && e.statusAt(a, b.id) != string(cluster.NodeStatusActive) {
+						return false
+					}
+				}
+			}
+			return true
+		})
 		// the survivors-to-be that this node currently believes reachable
 		var believed []*nd
 		for _, s := range e.nodes {
@@ -590,22 +622,34 @@ func (e *nodeEngine) step(ws []string, o *Out) string {
 		}
 		o.Add("shutdown-ms", int(time.Since(t0).Milliseconds()))
 		n.alive = false
-		// the peers it notified have status left at once (Leave waits for each ack); Leave only
-		// tries the peers this node believed reachable
-		notified := 0
-		for _, s := range believed {
+		// the peers it notified have status left at once (Leave waits for each ack).  Leave only
+		// tries the peers the node's own gossip state does not flag unreachable/left; that state
+		// is frozen by Close right after Leave, so it is read back here
+		reachable := map[string]bool{}
+		for _, m := range server.VGossiper(n.srv).Nodes() {
+			if !m.Unreachable && !m.Left {
+				reachable[m.ID] = true
+			}
+		}
+		notified, wantNotified := 0, 0
+		for _, s := range e.survivors() {
+			if reachable[s.id] {
+				wantNotified++
+			}
 			if e.statusAt(s, n.id) == string(cluster.NodeStatusLeft) {
 				notified++
 			}
 		}
-		wantNotified := len(believed)
 		if wantNotified > maxNotified {
 			wantNotified = maxNotified
 		}
 		notifiedStr := "all"
 		if notified < wantNotified {
 			notifiedStr = fmt.Sprintf("%d/%d", notified, wantNotified)
-			o.Fail("C18", "not-left-immediately", fmt.Sprintf("lost=%s: %d of the peers it believed reachable see it left when Shutdown returns, want >= %d: %s", n.id, notified, wantNotified, e.seen(n)))
+			o.Fail("C18", "not-left-immediately", fmt.Sprintf("lost=%s: %d survivors see it left when Shutdown returns, want >= %d (the peers it held reachable, at most %d): %s", n.id, notified, wantNotified, maxNotified, e.seenExact(n)))
+		}
+		if wantNotified < len(believed) && wantNotified < maxNotified {
+			o.Count("observed:detector-flapped-before-leave")
 		}
 		// the watcher reports as soon as it has seen the marker (it is there by now, unless
 		// Leave never ran); only then is it told to stop
